@@ -283,6 +283,11 @@ class SimBus(Endpoint, can.BusABC):
         ctx = ch.ctx
         if self.is_down:
             raise can.CanOperationError("bus is shut down")
+        if getattr(self, "fail_next_send", False):
+            # fault: the driver refuses one frame (transmit buffer full)
+            self.fail_next_send = False
+            ctx.log("send-refused", self.name, msg.arbitration_id)
+            raise InjectedCanError("simulated driver error: transmit buffer full")
         self.sent.append(msg)
         if ctx.threaded and ch.unsafe_driver:
             # a driver that is not thread-safe: the frame goes through a shared
